@@ -89,7 +89,7 @@ structure GAEC where
   ip : Bytes
   deriving Repr, Inhabited
 
-structure GMM where
+@[ext] structure GMM where
   ts : Option Ts := none
   clientIp : Option Bytes := none
   clientPort : Option Nat := none
